@@ -24,6 +24,13 @@ SHAPES = {
     "fan-in": {0: [1, 2, 3], 1: [3], 2: [3], 3: []},
 }
 FNAMES = ["root", "base", "mid", "leaf"]
+# directory layouts (C20: "a grammar split into files": files may live in different directories, imported by relative paths incl. '..')
+DIRS = [
+    {"root": "", "base": "", "mid": "", "leaf": ""},
+    {"root": "", "base": "lib", "mid": "lib", "leaf": ""},
+    {"root": "", "base": "lib", "mid": "", "leaf": "lib/deep"},
+    {"root": "top", "base": "lib", "mid": "top/sub", "leaf": "lib"},
+]
 RULES = ["A", "B", "C", "D", "L"]   # 'L' is deliberately used as a rule name in several files (same local name)
 
 
@@ -92,8 +99,13 @@ def gen_case(rng, shape_name, with_override, with_sugar, with_alias):
     return {FNAMES[i]: files[i] for i in range(nfiles)}
 
 
-def file_text(f):
-    out = "".join('import "%s.pg"%s;\n' % (imp["target"], "" if imp["alias"] == imp["target"] else " as " + imp["alias"]) for imp in f["imports"])
+def file_text(f, me="root", dirs=None):
+    dirs = dirs or DIRS[0]
+
+    def rel(target):
+        p = os.path.relpath(os.path.join("/", dirs[target], target + ".pg"), os.path.join("/", dirs[me]))
+        return p
+    out = "".join('import "%s"%s;\n' % (rel(imp["target"]), "" if imp["alias"] == imp["target"] else " as " + imp["alias"]) for imp in f["imports"])
     for r in f["rules"]:
         alts = []
         for alt in r["alts"]:
@@ -109,15 +121,18 @@ def worker(job):
 
     files = job["files"]
     d = tempfile.mkdtemp(prefix="imp-", dir=scratch())
-    case = {"name": job["name"], "origin": job["origin"], "files": files, "root": "root", "texts": {k: file_text(v) for k, v in files.items()},
+    dirs = DIRS[job.get("dirs", 0)]
+    case = {"name": job["name"], "origin": job["origin"], "files": files, "root": "root",
+            "texts": {os.path.join(dirs[k], k + ".pg"): file_text(v, k, dirs) for k, v in files.items()},
             "built": False, "err": "", "prods": [], "terms": [], "akind": {}, "assign": [], "inputs": [], "helpers": {}}
     try:
         for fn, f in files.items():
-            with open(os.path.join(d, fn + ".pg"), "w") as fh:
-                fh.write(file_text(f))
+            os.makedirs(os.path.join(d, dirs[fn]), exist_ok=True)
+            with open(os.path.join(d, dirs[fn], fn + ".pg"), "w") as fh:
+                fh.write(file_text(f, fn, dirs))
         try:
             with real.guard(20), real.quiet():
-                g = real.Grammar.from_file(os.path.join(d, "root.pg"))
+                g = real.Grammar.from_file(os.path.join(d, dirs["root"], "root.pg"))
                 parser = real.GLRParser(g)
         except Exception as e:  # noqa: BLE001
             case["err"] = "%s: %s" % (type(e).__name__, str(e)[:160])
@@ -227,8 +242,23 @@ def _jobs(tier, seed):
         shape = names[i % len(names)]
         ov, su, al = r.random() < 0.35, r.random() < 0.5, r.random() < 0.6
         files = gen_case(r, shape, ov, su, al)
-        jobs.append({"name": "%s#%d%s%s%s" % (shape, i, " override" if ov else "", " sugar" if su else "", " alias" if al else ""),
-                     "files": files, "origin": "det" if i % 4 else "rand", "seed": r.randrange(1 << 30), "shape": shape, "override": ov})
+        dl = (i // len(names)) % len(DIRS)
+        jobs.append({"name": "%s#%d%s%s%s%s" % (shape, i, " override" if ov else "", " sugar" if su else "", " alias" if al else "", " dirs%d" % dl if dl else ""),
+                     "files": files, "origin": "det" if i % 4 else "rand", "seed": r.randrange(1 << 30), "shape": shape, "override": ov, "dirs": dl})
+    # directed templates: the same local rule name under repetition sugar in two imported files (alternative numbering of helper rules per symbol)
+    def ref(parts, mult=""):
+        return {"kind": "ref", "parts": parts, "mult": mult}
+
+    def st(t):
+        return {"kind": "str", "text": t}
+    for k, (m1, m2) in enumerate([("+", "+"), ("*", "+"), ("+", "?"), ("*", "*")]):
+        files = {"root": {"imports": [{"alias": "base", "target": "base"}, {"alias": "mid", "target": "mid"}],
+                          "rules": [{"name": ["S"], "alts": [[st("go"), ref(["base", "L"], m1), st("then"), ref(["mid", "L"], m2)], [ref(["mid", "L"], m2), st("only")]]}], "terms": []},
+                 "base": {"imports": [], "rules": [{"name": ["L"], "alts": [[st("b1")], [st("b2"), ref(["L"])]]}], "terms": []},
+                 "mid": {"imports": [], "rules": [{"name": ["L"], "alts": [[st("m1")], [st("m2")]]}], "terms": []}}
+        for dl in (0, 1):
+            jobs.append({"name": "template-same-local-name#%d%s" % (k, " dirs%d" % dl if dl else ""), "files": files, "origin": "det", "seed": 77 + k, "shape": "tree3",
+                         "override": False, "dirs": dl})
     return jobs
 
 
